@@ -393,4 +393,26 @@ example : Reach exEnv (exec exEnv {} overtakeSched) := exec_reach _ _ _ .init
 example : (exec exEnv {} [.callDlv 1 5 false, .callDlv 2 5 false, .thread 0 0, .thread 1 0, .thread 1 0,
     .thread 0 0, .run]).st.processed = [5] := by decide
 
+/-! ### the critical sections, as written in tx_manager.go
+
+The small-step semantics takes a mutex critical section as one atomic step: in `AddTxID` and `AddTx` the bucket
+section (look the txid up AND insert the new entry under one `txMap.Lock`) and the entry section (`data.Lock`),
+in `GetTxRequests` one entry at a time under the bucket's read lock. Races between two callers inside these
+functions are below the call granularity of the correspondence (the stress stream samples them), so the sequence
+of lock operations, with the control structure and the returns around them, is regenerated from the source on every
+run (`lockTrace` in go/cmd/extract) and compared here: a change of the locking discipline — a lookup moved out of
+the bucket section, an entry used after its unlock, a read lock where the write lock was — breaks this theorem
+even when no run happens to hit the window. -/
+theorem C06_critical_sections_in_source :
+    Facts.locks_AddTxID =
+      ["m.RLock", "m.RUnlock", "txMap.Lock", "if{", "txMap.Unlock", "data.Lock", "if{", "data.Unlock", "return", "}",
+       "if{", "data.Unlock", "return", "}", "data.Unlock", "return", "}", "txMap.Unlock", "return"] ∧
+    Facts.locks_AddTx =
+      ["m.RLock", "m.RUnlock", "txMap.Lock", "if{", "txMap.Unlock", "data.Lock", "data.Unlock", "return", "}",
+       "txMap.Unlock", "return"] ∧
+    Facts.locks_GetTxRequests =
+      ["for{", "m.RLock", "m.RUnlock", "txMap.RLock", "for{", "data.Lock", "if{", "data.Unlock", "}", "if{",
+       "data.Unlock", "}", "if{", "data.Unlock", "}", "data.Unlock", "}", "txMap.RUnlock", "if{", "return", "}", "}",
+       "return"] := by decide
+
 end BRV.TxMgr
